@@ -212,3 +212,9 @@ def Xor(a, b):
 def SelAcq(sel, G, n, x, N):
     # sum over the selected rows i < n of the symplectic form of x with row i
     return 0 if n <= 0 else SelAcq(sel, G, n - 1, x, N) + (AcqSum(x, G[n - 1], N) if sel[n - 1] != 0 else 0)
+
+
+@spec('int1', 'int1', 'int')
+def PartnerSum(a, b, n):
+    # sum over l < n of b[l] * a[partner(l)], partner(l) = l + 1 for even l (X_i <-> Z_i), l - 1 for odd l
+    return 0 if n <= 0 else PartnerSum(a, b, n - 1) + b[n - 1] * (a[n] if (n - 1) % 2 == 0 else a[n - 2])
